@@ -25,8 +25,8 @@ func (o Op) hex(k string) string {
 	}
 	return string(b)
 }
-func (o Op) boolean(k string) bool { v, _ := o[k].(bool); return v }
-func (o Op) num(k string) int { return int(num64(o[k])) }
+func (o Op) boolean(k string) bool      { v, _ := o[k].(bool); return v }
+func (o Op) num(k string) int           { return int(num64(o[k])) }
 func (o Op) arr(k string) []interface{} { v, _ := o[k].([]interface{}); return v }
 
 func unhex(s string) string {
